@@ -12,7 +12,7 @@ from .engine import Unsupported
 from .ops import FullEngine
 from . import solve
 
-CONTRACT_MODULES = ["contracts.structure", "contracts.helpers", "contracts.builders", "contracts.traversal", "contracts.output", "contracts.plantuml", "contracts.singleton", "contracts.props"]
+CONTRACT_MODULES = ["contracts.structure", "contracts.helpers", "contracts.builders", "contracts.traversal", "contracts.output", "contracts.plantuml", "contracts.pickler", "contracts.singleton", "contracts.props"]
 
 
 def load_contracts():
@@ -198,6 +198,8 @@ def verify_side(pid: str, repo_root=None):
                          ("plantuml._one_vert_to_puml", ()), ("plantuml._one_link_to_puml", ()),
                          ("plantuml._one_vert_to_skinparam", ()), ("plantuml.render_to_plantuml_src", ())]:
             items += sidecond.readonly_effects(repo, q, ro, owned)
+    if pid == "C10":
+        items += sidecond.pickler_layout(repo)
     if pid == "C19":
         items += sidecond.no_setters(repo, "UniverseLaws", ["edge_whitelist", "mixed_links", "cycles", "multipath", "multiverse"])
     ident = sidecond.identity_model(repo)
